@@ -766,6 +766,8 @@ impl Scenario for EnvelopeScenario {
         &[
             "inputs are samples whose negated amplitude is representable (as the property says)",
             "tolerance: (4 eps_f32 + 2 eps_float) |env - d| + 4 eps_out (|env| + |d|) + 2 LSB_out; for the RMS detector the detected value itself carries C11's rigorous running-sum bound",
+            "convergence: n frames into a constant stretch the gap is at most g^n of its start (relative slack for the f32 gain), plus 2 LSB for integer outputs, plus spacing/(1-g) for float outputs",
+            "frames and outputs are decoded independently from the raw representation (raw.rs)",
         ]
     }
     fn runs(&self, tier: &str) -> u64 {
